@@ -98,14 +98,17 @@ Qed.
 
 (** ---- histories on one acquisition object ---- *)
 Definition close_P (a b : Q) : Prop := (Qabs (a - b) <= tol * (1 + Qabs b))%Q.
-Definition fd_close_P (a b : Q) : Prop :=
-  (Qabs (a - b) <= (2 # 10000) * (Qabs a + Qabs b) + (1 # 1000000))%Q.
+Definition fd_close_P (extra a b : Q) : Prop :=
+  (Qabs (a - b) <= (2 # 10000) * (Qabs a + Qabs b) + (1 # 1000000) + extra)%Q.
 
 (** coordinate-wise: the gradient is within the finite-difference tolerance of the central difference
     for one of the two step sizes *)
-Inductive fd_match_P : list Q -> list Q -> list Q -> Prop :=
-| fdm_nil : fd_match_P [] [] []
-| fdm_cons a b c g f1 f2 : fd_close_P a b \/ fd_close_P a c -> fd_match_P g f1 f2 -> fd_match_P (a :: g) (b :: f1) (c :: f2).
+Inductive fd_match_P (s : hstep) : list Q -> list Q -> list Q -> list Q -> list Q -> Prop :=
+| fdm_nil : fd_match_P s [] [] [] [] []
+| fdm_cons m v a b c gm gv g f1 f2 :
+    fd_close_P (fd_extra s m v) a b \/ fd_close_P (fd_extra s m v) a c ->
+    fd_match_P s gm gv g f1 f2 -> fd_match_P s (m :: gm) (v :: gv) (a :: g) (b :: f1) (c :: f2).
+Definition fd_matches (s : hstep) (g : list Q) : Prop := fd_match_P s (h_gmean s) (h_gvar s) g (h_fd s) (h_fd2 s).
 
 Record step_property (s : hstep) : Prop := {
   sp_beta : (0 < h_beta s)%Q;
@@ -113,8 +116,8 @@ Record step_property (s : hstep) : Prop := {
   (* the value the long-lived object returns is the value of a fresh object on the CURRENT surrogate *)
   sp_val : forall v, h_val s = Some v -> close_P v (h_fval s);
   (* so is its gradient, and it is the finite-difference derivative of the current acquisition function *)
-  sp_grad : forall g, h_grad s = Some g -> Forall2 close_P g (h_fgrad s) /\ fd_match_P g (h_fd s) (h_fd2 s);
-  sp_fresh : fd_match_P (h_fgrad s) (h_fd s) (h_fd2 s)
+  sp_grad : forall g, h_grad s = Some g -> Forall2 close_P g (h_fgrad s) /\ fd_matches s g;
+  sp_fresh : fd_matches s (h_fgrad s)
 }.
 
 Definition hist_property (h : hist_case) : Prop :=
@@ -124,16 +127,19 @@ Definition hist_property (h : hist_case) : Prop :=
 Lemma closeb_sound a b : closeb a b = true -> close_P a b.
 Proof. unfold closeb, close, close_P. apply Qle_bool_iff. Qed.
 
-Lemma fd_close_sound a b : fd_close a b = true -> fd_close_P a b.
+Lemma fd_close_sound e a b : fd_close e a b = true -> fd_close_P e a b.
 Proof. unfold fd_close, fd_close_P. apply Qle_bool_iff. Qed.
 
-Lemma fd_match_sound : forall g f1 f2, fd_match g f1 f2 = true -> fd_match_P g f1 f2.
+Lemma fd_match_go_sound s : forall gm gv g f1 f2, fd_match_go s gm gv g f1 f2 = true -> fd_match_P s gm gv g f1 f2.
 Proof.
-  induction g as [|a g IH]; intros [|b f1] [|c f2] H; simpl in H; try discriminate; constructor.
+  induction gm as [|m gm IH]; intros [|v gv] [|a g] [|b f1] [|c f2] H; simpl in H; try discriminate; constructor.
   - apply andb_true_iff in H. destruct H as [H _]. apply orb_true_iff in H.
     destruct H as [H|H]; [left|right]; now apply fd_close_sound.
   - apply IH. apply andb_true_iff in H. tauto.
 Qed.
+
+Lemma fd_match_sound s g : fd_match s g = true -> fd_matches s g.
+Proof. apply fd_match_go_sound. Qed.
 
 Lemma not_le_lt0 x : negb (Qle_bool x 0%Q) = true -> (0 < x)%Q.
 Proof.
